@@ -200,6 +200,145 @@ fn spawn_child(scenarios: &[Scenario], oracle: &Oracle, job: Job, serial: u64) -
     Child { pid, file: unsafe { std::fs::File::from_raw_fd(fds[0]) }, buf: Vec::new(), job, cfg }
 }
 
+/// A worker process: forked once while the parent is still small, it forks one grandchild per
+/// execution (cheap: its own address space stays small) and relays the result. This takes fork()
+/// of the ever-growing parent (state sets, job queues) off the critical path.
+struct Worker {
+    pid: i32,
+    to: std::fs::File,
+    from: std::fs::File,
+    buf: Vec<u8>,
+    job: Option<Job>,
+}
+
+fn write_all_fd(fd: i32, data: &[u8]) -> bool {
+    let mut off = 0;
+    while off < data.len() {
+        let n = unsafe { libc::write(fd, data[off..].as_ptr() as *const libc::c_void, data.len() - off) };
+        if n <= 0 {
+            return false;
+        }
+        off += n as usize;
+    }
+    true
+}
+
+fn read_exact_fd(fd: i32, buf: &mut [u8]) -> bool {
+    let mut off = 0;
+    while off < buf.len() {
+        let n = unsafe { libc::read(fd, buf[off..].as_mut_ptr() as *mut libc::c_void, buf.len() - off) };
+        if n <= 0 {
+            return false;
+        }
+        off += n as usize;
+    }
+    true
+}
+
+fn worker_main(scenarios: &[Scenario], oracle: &Oracle, job_fd: i32, res_fd: i32, widx: usize) -> ! {
+    let mut serial = 0u64;
+    loop {
+        let mut head = [0u8; 4];
+        if !read_exact_fd(job_fd, &mut head) {
+            unsafe { libc::_exit(0) };
+        }
+        let len = u32::from_le_bytes(head) as usize;
+        let mut body = vec![0u8; len];
+        if !read_exact_fd(job_fd, &mut body) {
+            unsafe { libc::_exit(0) };
+        }
+        let (sidx, prefix, expect_n): (usize, Vec<u32>, Vec<u32>) = match serde_json::from_slice(&body) {
+            Ok(j) => j,
+            Err(_) => unsafe { libc::_exit(3) },
+        };
+        serial += 1;
+        let mut fds = [0i32; 2];
+        unsafe {
+            if libc::pipe(fds.as_mut_ptr()) != 0 {
+                libc::_exit(4);
+            }
+        }
+        let cfg = format!("{}/w{}_{}.toml", work_dir(), widx, serial);
+        let pid = unsafe { libc::fork() };
+        if pid < 0 {
+            unsafe { libc::_exit(5) };
+        }
+        if pid == 0 {
+            unsafe {
+                libc::close(fds[0]);
+                libc::close(job_fd);
+                libc::close(res_fd);
+                libc::alarm(120);
+            }
+            let r = execute(&scenarios[sidx], oracle, &prefix, &expect_n, &cfg);
+            let data = serde_json::to_vec(&r).unwrap_or_else(|_| b"{}".to_vec());
+            write_all_fd(fds[1], &data);
+            let _ = std::fs::remove_file(&cfg);
+            unsafe {
+                libc::close(fds[1]);
+                libc::_exit(0);
+            }
+        }
+        unsafe { libc::close(fds[1]) };
+        let mut data: Vec<u8> = Vec::new();
+        let mut tmp = [0u8; 65536];
+        loop {
+            let n = unsafe { libc::read(fds[0], tmp.as_mut_ptr() as *mut libc::c_void, tmp.len()) };
+            if n <= 0 {
+                break;
+            }
+            data.extend_from_slice(&tmp[..n as usize]);
+        }
+        let mut status = 0i32;
+        unsafe {
+            libc::close(fds[0]);
+            libc::waitpid(pid, &mut status, 0);
+        }
+        let _ = std::fs::remove_file(&cfg);
+        // frame: u32 length, i32 wait status, payload
+        let mut frame = Vec::with_capacity(data.len() + 8);
+        frame.extend_from_slice(&(data.len() as u32).to_le_bytes());
+        frame.extend_from_slice(&status.to_le_bytes());
+        frame.extend_from_slice(&data);
+        if !write_all_fd(res_fd, &frame) {
+            unsafe { libc::_exit(0) };
+        }
+    }
+}
+
+fn spawn_worker(scenarios: &[Scenario], oracle: &Oracle, widx: usize, others: &[Worker]) -> Worker {
+    let mut jp = [0i32; 2];
+    let mut rp = [0i32; 2];
+    unsafe {
+        if libc::pipe(jp.as_mut_ptr()) != 0 || libc::pipe(rp.as_mut_ptr()) != 0 {
+            panic!("pipe failed");
+        }
+    }
+    let pid = unsafe { libc::fork() };
+    if pid < 0 {
+        panic!("fork failed");
+    }
+    if pid == 0 {
+        unsafe {
+            libc::close(jp[1]);
+            libc::close(rp[0]);
+            // the pipe ends of the workers started before this one
+            for w in others {
+                libc::close(std::os::unix::io::AsRawFd::as_raw_fd(&w.to));
+                libc::close(std::os::unix::io::AsRawFd::as_raw_fd(&w.from));
+            }
+        }
+        worker_main(scenarios, oracle, jp[0], rp[1], widx);
+    }
+    unsafe {
+        libc::close(jp[0]);
+        libc::close(rp[1]);
+        let flags = libc::fcntl(rp[0], libc::F_GETFL);
+        libc::fcntl(rp[0], libc::F_SETFL, flags | libc::O_NONBLOCK);
+    }
+    Worker { pid, to: unsafe { std::fs::File::from_raw_fd(jp[1]) }, from: unsafe { std::fs::File::from_raw_fd(rp[0]) }, buf: Vec::new(), job: None }
+}
+
 #[derive(Clone, Debug, Serialize, Deserialize)]
 pub struct Found {
     pub violation: Violation,
@@ -257,17 +396,27 @@ pub fn explore(scenarios: &[Scenario], oracle: &Oracle, bound: u32, limits: &Lim
     for (i, _) in scenarios.iter().enumerate().rev() {
         levels[0].push(Job { sidx: i, prefix: vec![], expect_n: vec![], devs: 0, recheck_of: None });
     }
-    let mut inflight: Vec<Child> = Vec::new();
-    let mut serial = 0u64;
+    // make sure this thread's hash keys exist before any fork, so that every worker (and hence every
+    // execution) iterates hash maps identically
+    let _keys = std::collections::hash_map::RandomState::new();
+    let _ = std::fs::create_dir_all(work_dir());
+    let mut workers: Vec<Worker> = Vec::new();
+    for w in 0..limits.workers.max(1) {
+        let nw = spawn_worker(scenarios, oracle, w, &workers);
+        workers.push(nw);
+    }
     let mut capped = false;
     loop {
-        // fill
-        while inflight.len() < limits.workers && !capped {
+        // fill idle workers
+        for w in workers.iter_mut() {
+            if w.job.is_some() || capped {
+                continue;
+            }
             let job = match levels.iter_mut().find(|l| !l.is_empty()) {
                 Some(l) => l.pop().unwrap(),
                 None => break,
             };
-            if rep.executions + inflight.len() as u64 >= limits.max_execs || t0.elapsed().as_secs_f64() > limits.max_wall_s {
+            if rep.executions >= limits.max_execs || t0.elapsed().as_secs_f64() > limits.max_wall_s {
                 capped = true;
                 rep.caps_hit.push(format!(
                     "stopped after {} executions / {:.0}s with {} jobs still queued",
@@ -277,59 +426,83 @@ pub fn explore(scenarios: &[Scenario], oracle: &Oracle, bound: u32, limits: &Lim
                 ));
                 break;
             }
-            serial += 1;
-            inflight.push(spawn_child(scenarios, oracle, job, serial));
+            let body = serde_json::to_vec(&(job.sidx, &job.prefix, &job.expect_n)).unwrap();
+            let mut frame = (body.len() as u32).to_le_bytes().to_vec();
+            frame.extend_from_slice(&body);
+            if !write_all_fd(std::os::unix::io::AsRawFd::as_raw_fd(&w.to), &frame) {
+                rep.machinery_errors.push("a worker process died".into());
+                capped = true;
+                break;
+            }
+            w.job = Some(job);
         }
-        if inflight.is_empty() {
+        let busy: Vec<usize> = workers.iter().enumerate().filter(|(_, w)| w.job.is_some()).map(|(i, _)| i).collect();
+        if busy.is_empty() {
             break;
         }
-        // poll
-        let mut pfds: Vec<libc::pollfd> = inflight
+        let mut pfds: Vec<libc::pollfd> = busy
             .iter()
-            .map(|c| libc::pollfd { fd: std::os::unix::io::AsRawFd::as_raw_fd(&c.file), events: libc::POLLIN, revents: 0 })
+            .map(|i| libc::pollfd { fd: std::os::unix::io::AsRawFd::as_raw_fd(&workers[*i].from), events: libc::POLLIN, revents: 0 })
             .collect();
         unsafe {
             libc::poll(pfds.as_mut_ptr(), pfds.len() as libc::nfds_t, 1000);
         }
-        let mut done: Vec<usize> = Vec::new();
-        for (i, c) in inflight.iter_mut().enumerate() {
-            if pfds[i].revents == 0 {
+        for (k, wi) in busy.iter().enumerate() {
+            if pfds[k].revents == 0 {
                 continue;
             }
+            let w = &mut workers[*wi];
             let mut tmp = [0u8; 65536];
+            let mut dead = false;
             loop {
-                match c.file.read(&mut tmp) {
+                match w.from.read(&mut tmp) {
                     Ok(0) => {
-                        done.push(i);
+                        dead = true;
                         break;
                     }
-                    Ok(n) => c.buf.extend_from_slice(&tmp[..n]),
+                    Ok(n) => w.buf.extend_from_slice(&tmp[..n]),
                     Err(e) if e.kind() == std::io::ErrorKind::WouldBlock => break,
                     Err(_) => {
-                        done.push(i);
+                        dead = true;
                         break;
                     }
                 }
             }
-        }
-        for i in done.into_iter().rev() {
-            let c = inflight.swap_remove(i);
-            let mut status = 0i32;
-            unsafe {
-                libc::waitpid(c.pid, &mut status, 0);
+            if dead {
+                let job = w.job.take();
+                rep.machinery_errors.push(format!("worker {} died while running {:?}", wi, job.map(|j| (scenarios[j.sidx].name.clone(), j.prefix))));
+                capped = true;
+                continue;
             }
-            let _ = std::fs::remove_file(&c.cfg);
-            let r: ExecResult = match serde_json::from_slice(&c.buf) {
+            if w.buf.len() < 8 {
+                continue;
+            }
+            let len = u32::from_le_bytes(w.buf[0..4].try_into().unwrap()) as usize;
+            if w.buf.len() < 8 + len {
+                continue;
+            }
+            let status = i32::from_le_bytes(w.buf[4..8].try_into().unwrap());
+            let payload: Vec<u8> = w.buf[8..8 + len].to_vec();
+            w.buf.drain(..8 + len);
+            let job = w.job.take().unwrap();
+            let r: ExecResult = match serde_json::from_slice(&payload) {
                 Ok(r) => r,
                 Err(_) => {
                     rep.machinery_errors.push(format!(
                         "child for scenario {} prefix {:?} died (wait status {}) without a result",
-                        scenarios[c.job.sidx].name, c.job.prefix, status
+                        scenarios[job.sidx].name, job.prefix, status
                     ));
                     continue;
                 }
             };
-            process_result(scenarios, &mut rep, &mut levels, c.job, r, bound);
+            process_result(scenarios, &mut rep, &mut levels, job, r, bound);
+        }
+    }
+    for w in workers {
+        drop(w.to);
+        let mut status = 0i32;
+        unsafe {
+            libc::waitpid(w.pid, &mut status, 0);
         }
     }
     rep.bound_completed = !capped && rep.machinery_errors.is_empty();
